@@ -27,12 +27,61 @@ OUT_ALLOWED_SPEC = {"SELL", "GIFT", "DONATE", "FEE", "LOST", "STAKING"}
 ALL_TYPES_SPEC = {"AIRDROP", "BUY", "DONATE", "FEE", "GIFT", "HARDFORK", "INCOME", "INTEREST", "LOST", "MINING", "MOVE", "SELL", "STAKING", "WAGES"}
 
 
+# validators that return a *conversion* of their argument (string -> enum member / datetime / str): reviewed, each has its own rule (C05.b, C12.b, C11.a)
+REVIEWED_CONVERSIONS = {
+    "rp2.configuration:Configuration.type_check_string_or_integer",
+    "rp2.configuration:Configuration.type_check_timestamp_from_string",
+    "rp2.entry_types:EntrySetType.type_check_from_string",
+    "rp2.entry_types:TransactionType.type_check_from_string",
+    "rp2.configuration:Configuration.type_check_parameter_name",
+}
+_VALUE_PARAMS = ("value", "instance", "transaction_type", "entry_set_type")
+
+
+def _returns_its_argument(prog: Program, f, busy: set) -> bool:
+    """Every return hands back the value parameter itself: directly, through a local bound once to it, or through another such validator."""
+    import ast as _ast
+
+    par = next((p for p in f.param_names if p in _VALUE_PARAMS), None)
+    if par is None or f.fq in busy:
+        return False
+    busy = busy | {f.fq}
+    same = {par}
+
+    def passes(e) -> bool:
+        if isinstance(e, _ast.Name):
+            return e.id in same
+        if isinstance(e, _ast.Call) and isinstance(e.func, _ast.Attribute) and e.func.attr.startswith("type_check") and isinstance(e.func.value, _ast.Name) and e.func.value.id in ("cls", "self") and f.cls is not None:
+            callee = prog.lookup_method(f.cls, e.func.attr)
+            args = list(e.args) + [k.value for k in e.keywords if k.arg in _VALUE_PARAMS]
+            return callee is not None and any(isinstance(a, _ast.Name) and a.id in same for a in args) and _returns_its_argument(prog, callee, busy)
+        return False
+
+    for n in _ast.walk(f.node):
+        if isinstance(n, (_ast.Assign, _ast.AnnAssign)) and getattr(n, "value", None) is not None:
+            tgt = n.targets[0] if isinstance(n, _ast.Assign) and len(n.targets) == 1 else getattr(n, "target", None)
+            if isinstance(tgt, _ast.Name):
+                if passes(n.value):
+                    same.add(tgt.id)
+                elif tgt.id in same:
+                    return False  # the value (or its alias) is overwritten with something else
+    rets = [n for n in _ast.walk(f.node) if isinstance(n, _ast.Return)]
+    return bool(rets) and all(r.value is not None and passes(r.value) for r in rets)
+
+
 class Model:
     def __init__(self, prog: Optional[Program] = None) -> None:
         self.prog = prog or program()
         self.norm = Norm(self.prog)
         # validators stay visible as calls (C12 needs to see them); norm.strip_validators() removes them where only the value matters
-        self.norm.opaque_funcs |= {fq for fq, f in self.prog.functions.items() if f.name.startswith("type_check")}
+        # A validator is something that returns the value it was given (or a reviewed conversion of it) unless it raises; a new `type_check*` helper that
+        # can return anything else (a default, say) is interpreted like any other function.
+        import sa.norm as _norm_mod
+
+        validators = {fq for fq, f in self.prog.functions.items() if f.name.startswith("type_check") and (fq in REVIEWED_CONVERSIONS or _returns_its_argument(self.prog, f, set()))}
+        self.norm.opaque_funcs |= validators
+        _norm_mod.VALIDATORS.clear()
+        _norm_mod.VALIDATORS.update(validators)
 
     # ------------------------------------------------------------- anchors
     @property
@@ -267,8 +316,7 @@ def simplify(m: "Model", t: Term, env: Dict[str, Any]) -> Term:
         a = simplify(m, t[1], env)
         if a == ("const", None):
             return ("const", False)
-        if a[0] == "sym" and a[1] in env and env[a[1]] is GIVEN:
-            return ("const", True)
+        # a supplied cell is not None, but it may still be falsy (a decimal zero, an empty string): its truthiness stays open
         if a[0] == "const":
             return ("const", bool(a[1]))
         return ("truthy", a)
